@@ -11,7 +11,7 @@ use crate::Ctx;
 use refimpl as r;
 use serde_json::json;
 
-const RULE: &str = "seeds: all-0, all-FF, 256 single-bit seeds (thorough), random, plus seeds pre-selected by scanning SHAKE output for rare sampler events (three-byte sample == q or q+-1); each through KG::keygen_from_seed, the module-level try_keygen_with_rng and KG::try_keygen_with_rng under a recording RNG whose script is seed || random tail. into_bytes() of both keys must equal the reference KeyGen_internal pkEncode/skEncode bytes; RNG log must be one try_fill_bytes(32) consuming exactly the seed; different tails and repeated calls must not change the keys. Non-trivial = distinct seeds for which all three entry points matched the reference.";
+const RULE: &str = "seeds: all-0, all-FF, 256 single-bit seeds (thorough), random, plus seeds pre-selected by running the instrumented reference over tens of thousands of candidates for rare events (A*s1+s2 wrapping past q or below 0 before reduction, about 1 seed in 10^4; three-byte sample == q or q+-1); each through KG::keygen_from_seed, the module-level try_keygen_with_rng and KG::try_keygen_with_rng under a recording RNG whose script is seed || random tail. into_bytes() of both keys must equal the reference KeyGen_internal pkEncode/skEncode bytes; RNG log must be one try_fill_bytes(32) consuming exactly the seed; different tails and repeated calls must not change the keys. Non-trivial = distinct seeds for which all three entry points matched the reference.";
 
 pub fn run(ctx: &Ctx) -> StageOut {
     let mut acc = Acc::new();
@@ -45,6 +45,9 @@ pub fn check_seed<S: PS>(acc: &mut Acc, xi: &[u8; 32], class: &str, tail_seed: u
     acc.count("ref_three_byte_eq_q_plus_1", ev.three_byte_eq_qp1);
     acc.count("ref_half_byte_rejections", ev.half_byte_rejections);
     acc.count("ref_power2round_ties", ev.p2r_ties);
+    acc.count("ref_t_wrap_high", ev.t_wrap_high);
+    acc.count("ref_t_wrap_low", ev.t_wrap_low);
+    acc.count("ref_t1_equals_1023", ev.t1_max);
     let replay = |what: &str| json!({"kind": "keygen-diff", "set": S::SET, "xi": hex(xi), "entry": what, "class": class});
     let mut ok = true;
     // 1. seeded
@@ -123,29 +126,18 @@ fn run_set<S: PS>(ctx: &Ctx) -> Acc {
     for _ in 0..n_random {
         seeds.push((g.arr32(), "random"));
     }
-    // rare-event pre-scan over candidate seeds (SHAKE only, cheap)
-    let n_scan = ctx.budget(1_500, 60_000) as usize;
-    let scan = par_map(32, |sh| {
-        let mut g = Prng::derive(ctx.seed, &format!("c04-scan-{}", p.name), sh as u64);
-        let mut hits = Vec::new();
-        for _ in 0..n_scan / 32 {
-            let xi = g.arr32();
-            let (a, b, c) = rare_expand_a_seed(p, &xi);
-            if a + b + c > 0 {
-                hits.push(xi);
-            }
-        }
-        hits
-    });
-    let mut n_rare = 0;
-    for hits in scan {
-        for xi in hits {
-            if n_rare < 64 {
-                seeds.push((xi, "rare-three-byte"));
-                n_rare += 1;
-            }
-        }
+    // rare-event pre-scan with the instrumented reference: seeds whose key generation wraps
+    // A*s1 + s2 past q or below 0 before reduction, or whose ExpandA stream contains a three-byte
+    // sample equal to q-1 / q / q+1
+    let n_scan = ctx.budget(24_000, 400_000) as usize;
+    let rare = rare_keygen_seeds(ctx, p, n_scan);
+    let mut tag_names: Vec<&'static str> = Vec::new();
+    for r in &rare {
+        let tag: &'static str = if r.tags.iter().any(|t| t == "t-wrap-high") { "rare-t-wrap-high" } else if r.tags.iter().any(|t| t == "t-wrap-low") { "rare-t-wrap-low" } else { "rare-three-byte" };
+        seeds.push((r.xi, tag));
+        tag_names.push(tag);
     }
+    let n_rare = rare.len();
     let accs = par_map(seeds.len(), |i| {
         let mut acc = Acc::new();
         check_seed::<S>(&mut acc, &seeds[i].0, seeds[i].1, ctx.seed ^ (i as u64) << 8);
@@ -154,5 +146,11 @@ fn run_set<S: PS>(ctx: &Ctx) -> Acc {
     let mut acc = Acc::merge_all(accs);
     acc.count("seeds_scanned_for_rare_events", n_scan as u64);
     acc.count("rare_seeds_checked", n_rare as u64);
+    for t in ["rare-t-wrap-high", "rare-t-wrap-low", "rare-three-byte"] {
+        acc.count(&format!("seeds_{t}"), tag_names.iter().filter(|x| **x == t).count() as u64);
+    }
+    if n_rare == 0 {
+        acc.inconclusive(format!("{}: the rare-event scan found no seed", p.name));
+    }
     acc
 }
